@@ -569,7 +569,7 @@ def tie_theorems(names, sub):
     for l in names:
         a, b = f"Tbx.GenCur.{sub}{l}", f"Tbx.Gen.{sub}{l}"
         rw = ("simp only [" + ", ".join(prev) + "]") if prev else "fail"
-        out.append(f"theorem {l}_cur : @{a} = @{b} := by\n  unfold {a} {b}\n  first | ({rw}) | rfl")
+        out.append(f"theorem {l}_cur : @{a} = @{b} := by\n  unfold {a} {b}\n  try {rw}\n  all_goals rfl")
         prev.append(f"{l}_cur")
     return "\n".join(out)
 
@@ -657,16 +657,20 @@ def main():
             ties.append(lean)
     helper = ("/-- `u32::leading_zeros` -/\n"
               "def leadingZeros32 (x : Nat) : Nat := if x = 0 then 32 else 31 - Nat.log2 x\n\n")
+    # separate files: a current source whose translation does not even elaborate must not take the pinned
+    # definitions (which the hand models import) down with it
     text = ("/- GENERATED by tools/translate.py on every check run. Do not edit.\n"
-            "   namespace Tbx.Gen    = translation of the pinned commit (tools/pinned_fns.json)\n"
-            "   namespace Tbx.GenCur = translation of /repo's CURRENT source; Tbx/Gen/CurTie.lean proves them equal by rfl -/\n"
-            "namespace Tbx.Gen\n\n" + helper + "\n".join(pin_defs) + "\nend Tbx.Gen\n\n"
-            "namespace Tbx.GenCur\n\n" + "\n".join(cur_defs).replace("Tbx.Gen.pat32", "Tbx.GenCur.pat32") + "\nend Tbx.GenCur\n")
-    old = open(OUT).read() if os.path.exists(OUT) else None
-    if old != text:
-        os.makedirs(os.path.dirname(OUT), exist_ok=True)
-        open(OUT, "w").write(text)
-    tie = ("/- GENERATED by tools/translate.py. Do not edit. -/\nimport Tbx.Gen.Fns\nset_option linter.unusedSimpArgs false\nnamespace Tbx.Gen.CurTie\n\n" +
+            "   namespace Tbx.Gen = translation of the pinned commit (tools/pinned_fns.json); the translation of /repo's\n"
+            "   CURRENT source is in Tbx/Gen/FnsCur.lean (namespace Tbx.GenCur), Tbx/Gen/CurTie.lean proves them equal -/\n"
+            "namespace Tbx.Gen\n\n" + helper + "\n".join(pin_defs) + "\nend Tbx.Gen\n")
+    cur_text = ("/- GENERATED by tools/translate.py from /repo's CURRENT source on every check run. Do not edit. -/\n"
+                "import Tbx.Gen.Fns\nnamespace Tbx.GenCur\n\n" + "\n".join(cur_defs).replace("Tbx.Gen.pat32", "Tbx.GenCur.pat32") + "\nend Tbx.GenCur\n")
+    for path, txt in ((OUT, text), (os.path.join(os.path.dirname(OUT), "FnsCur.lean"), cur_text)):
+        old = open(path).read() if os.path.exists(path) else None
+        if old != txt:
+            os.makedirs(os.path.dirname(path), exist_ok=True)
+            open(path, "w").write(txt)
+    tie = ("/- GENERATED by tools/translate.py. Do not edit. -/\nimport Tbx.Gen.FnsCur\nset_option linter.unusedSimpArgs false\nnamespace Tbx.Gen.CurTie\n\n" +
            tie_theorems(["pat32"] + ties if "zorderCmp" in ties else ties, "") +
            "\n\nend Tbx.Gen.CurTie\n")
     tp = os.path.join(os.path.dirname(OUT), "CurTie.lean")
